@@ -575,7 +575,9 @@ impl Ck {
                 let v: i128 = match s.parse() {
                     Ok(v) => v,
                     Err(_) => {
-                        self.err("const-overflow", line, format!("integer constant {} too large", s));
+                        // Go's untyped integer constants have arbitrary precision (a float64 written
+                        // without a fraction has 300 digits); the model's have 128 bits
+                        self.err("unsupported-const", line, format!("integer constant {} not representable in the model", s));
                         0
                     }
                 };
